@@ -13,4 +13,5 @@ func genAll(repo string) {
 	genCopy(repo)
 	genNJ(repo)
 	genPyramid(repo)
+	genImageBlk(repo)
 }
